@@ -57,7 +57,24 @@ const ALL_INS: &[Ins] = &[
     Ins::TextBefore, Ins::TextAfter, Ins::TextReplace, Ins::EndTagBefore, Ins::EndTagAfter,
 ];
 
+/// attribute lists put in place of ` id=t` on the target element: legal but unusual shapes
+/// (value-less attributes, empty values, names starting with `=`, `/` separators, duplicates)
+/// that a re-serialised start tag has to keep apart
+const ATTR_SHAPES: &[&str] = &[
+    " id=t",
+    " id=t",
+    " id=t b=\"\"=c d",
+    " id=t b=''=c",
+    " id=t b/=c e",
+    " id=\"t\"=c d",
+    " a id=t b c=1 a=2",
+    " id=t x=\"\" y data-v=old",
+    " id=t d=\"1\"x='2'/Q",
+    "\tid=t\nb\x0c=\n''\n=c\n",
+];
+
 pub struct Case {
+    pub shape: usize,
     pub template: usize,
     pub ins: Ins,
     pub s: String,
@@ -77,6 +94,7 @@ pub fn decode(tape: &[u16]) -> Case {
     }
     let enc = if t.chance(1, 2) { encoding_rs::UTF_8 } else { ENCODINGS[t.below(ENCODINGS.len())] };
     let cut = t.frac();
+    let shape = t.below(ATTR_SHAPES.len());
     let n = t.range(0, 6);
     let mut s: String = String::new();
     let name_like = matches!(ins, Ins::TagName | Ins::AttrName) && t.chance(2, 3);
@@ -90,7 +108,7 @@ pub fn decode(tape: &[u16]) -> Case {
             s.push_str(*t.pick(ALPHA));
         }
     }
-    Case { template, ins, s, enc, cut }
+    Case { shape, template, ins, s, enc, cut }
 }
 
 fn norm_text(s: &str, mode: &str) -> String {
@@ -154,7 +172,9 @@ fn cfg_for(c: &Case) -> Cfg {
 const SPECIAL_NAMES: &[&str] = &["script", "style", "title", "textarea", "xmp", "iframe", "noembed", "noframes", "noscript", "plaintext", "svg", "math", "select", "template", "frameset", "table", "html", "head", "body", "br", "img", "input", "hr", "wbr", "meta", "link", "col", "embed", "area", "base", "source", "track", "param", "keygen", "basefont", "bgsound", "p", "li", "a", "b", "i", "option", "optgroup", "form", "button", "nobr", "image", "listing", "pre"];
 
 pub fn check_case(c: &Case, st: &mut Stats) -> PResult {
-    let (tpl, inner_mode) = TEMPLATES[c.template];
+    let (tpl0, inner_mode) = TEMPLATES[c.template];
+    let tpl_owned = tpl0.replacen(" id=t", ATTR_SHAPES[c.shape], 1);
+    let tpl: &str = &tpl_owned;
     let has_comment = tpl.contains("<!--c-->");
     if matches!(c.ins, Ins::CommentBefore | Ins::CommentAfter | Ins::CommentReplace | Ins::CommentSetText) && !has_comment {
         st.excluded("comment operation on a template without a comment");
@@ -236,7 +256,10 @@ pub fn check_case(c: &Case, st: &mut Stats) -> PResult {
         Ins::AttrValue => match api_result {
             Some(true) => {
                 if let HT::Start { attrs, .. } = &mut exp[si] {
-                    attrs.push(("data-v".into(), norm_text(&c.s, "attr")));
+                    match attrs.iter_mut().find(|a| a.0 == "data-v") {
+                        Some(a) => a.1 = norm_text(&c.s, "attr"),
+                        None => attrs.push(("data-v".into(), norm_text(&c.s, "attr"))),
+                    }
                 }
             }
             _ => fail!("C08: set_attribute with a valid name failed"),
@@ -308,7 +331,8 @@ pub fn check_case(c: &Case, st: &mut Stats) -> PResult {
     }
     // same structure through lol-html's own tokenizer: kinds and names
     let shape_lol: Vec<String> = norm(&rr.events).map_err(Failure::new)?.iter().filter_map(|e| match e {
-        Ev::Element { name, attrs, .. } => Some(format!("<{name} {}>", attrs.len())),
+        // html5ever drops repeated attribute names; count distinct names
+        Ev::Element { name, attrs, .. } => Some(format!("<{name} {}>", attrs.iter().map(|a| a.name.as_str()).collect::<std::collections::BTreeSet<_>>().len())),
         Ev::EndTag { name, .. } => Some(format!("</{name}>")),
         Ev::Comment { .. } => Some("<!---->".into()),
         Ev::Text { text, .. } if !text.is_empty() => Some("#text".into()),
@@ -328,10 +352,11 @@ pub fn check_case(c: &Case, st: &mut Stats) -> PResult {
     let dangerous = c.s.chars().any(|ch| "<>&\"'=/-! \t\n\r\u{c}\0".contains(ch)) || !mappable;
     st.label(&format!("{:?}", c.ins));
     st.label(&format!("mode_{inner_mode}"));
+    st.label_if(c.shape > 1, "unusual_attribute_list");
     st.label_if(!mappable, "unmappable_char");
     st.label_if(api_result == Some(true), "api_accepted");
     if dangerous {
-        if st.nontrivial(fnv(format!("{}{:?}{}{}", c.template, c.ins, c.s, enc.name()).as_bytes())) {
+        if st.nontrivial(fnv(format!("{}{}{:?}{}{}", c.template, c.shape, c.ins, c.s, enc.name()).as_bytes())) {
             st.sample(|| json!({"template": tpl, "op": format!("{:?}", c.ins), "string": c.s, "encoding": enc.name(), "output": out_str}));
         }
     }
@@ -343,7 +368,7 @@ impl Prop for C08 {
         "C08"
     }
     fn rule(&self) -> String {
-        "case = (one of 10 templates covering Data, RCDATA, RAWTEXT, script, SVG, MathML-integration-point and comment contexts; one of 19 insertion points: element before/after/prepend/append/replace/set_inner_content, end-tag before/after, text-chunk and comment before/after/replace, document end (all ContentType::Text), set_attribute value, set_attribute name, set_tag_name, Comment::set_text; a string of 0-6 pieces from an alphabet biased to < > & \" ' - ! / = whitespace CR FF NUL comment/CDATA/script terminators, entities, non-BMP and unmappable characters; one of 36 encodings; one cut). oracle: the output decoded and re-parsed by html5ever (tokenizer + tree builder) == the template's token list plus exactly the inserted text node / attribute / comment text / renamed tag pair (text compared after the parser's own entity decoding; raw-text contexts compare the escaped form; attribute values are markup-level: raw re-read through lol-html must equal the argument with '\"' escaped); lol-html's own re-tokenisation has the same shape; a rejected call leaves the output byte-identical to the input; plain alphanumeric strings must be accepted. non-trivial = the string contains a markup-significant, whitespace/control or unmappable character".into()
+        "case = (one of 10 templates covering Data, RCDATA, RAWTEXT, script, SVG, MathML-integration-point and comment contexts, the target element carrying one of 9 attribute-list shapes [plain, empty quoted value followed by an `=`-led name, `/` separator, value-less, duplicate, unquoted/quoted without separating space, odd whitespace]; one of 19 insertion points: element before/after/prepend/append/replace/set_inner_content, end-tag before/after, text-chunk and comment before/after/replace, document end (all ContentType::Text), set_attribute value, set_attribute name, set_tag_name, Comment::set_text; a string of 0-6 pieces from an alphabet biased to < > & \" ' - ! / = whitespace CR FF NUL comment/CDATA/script terminators, entities, non-BMP and unmappable characters; one of 36 encodings; one cut). oracle: the output decoded and re-parsed by html5ever (tokenizer + tree builder) == the template's token list plus exactly the inserted text node / attribute / comment text / renamed tag pair (text compared after the parser's own entity decoding; raw-text contexts compare the escaped form; attribute values are markup-level: raw re-read through lol-html must equal the argument with '\"' escaped); lol-html's own re-tokenisation has the same shape; a rejected call leaves the output byte-identical to the input; plain alphanumeric strings must be accepted. non-trivial = the string contains a markup-significant, whitespace/control or unmappable character".into()
     }
     fn assumptions(&self) -> Vec<String> {
         vec!["html5ever 0.39 as the re-parser; WHATWG preprocessing (CR->LF, NUL->U+FFFD outside the data state) applied to the expected text".into(), "set_tag_name only on ordinary elements and to names without a special content model (documented precondition)".into()]
@@ -359,6 +384,6 @@ impl Prop for C08 {
     }
     fn describe(&self, tape: &[u16]) -> Value {
         let c = decode(tape);
-        json!({"template": TEMPLATES[c.template].0, "op": format!("{:?}", c.ins), "string": c.s, "encoding": c.enc.name(), "cut": c.cut})
+        json!({"template": TEMPLATES[c.template].0.replacen(" id=t", ATTR_SHAPES[c.shape], 1), "op": format!("{:?}", c.ins), "string": c.s, "encoding": c.enc.name(), "cut": c.cut})
     }
 }
